@@ -1117,6 +1117,35 @@ func vsGen(r *vu.Rng, size int) *vsCluster {
 		}
 		c.Routes = append(c.Routes, rt)
 	}
+	// fat routes (one state in eight): one Route with 13..16 rules, or two Routes of the same parents and hostnames
+	// with 7..8 rules each, every rule one match on ONE path told apart only by a header (12 name/value
+	// combinations, so rules tie or coincide: Route age/name and then the order written in the Route decide)
+	if size >= 1 && r.Chance(1, 8) {
+		path := vsPick(r, pools.paths)
+		fat := func(rt *vsRoute, n int) {
+			rt.Rules = nil
+			for j := 0; j < n; j++ {
+				m := vsMatch{Path: path, Headers: [][2]string{{vsPick(r, vsHdrNames), vsPick(r, vsVals)}}}
+				b := vsBackend{Name: vsPick(r, vsSvcPool), Port: []int32{80, 8080}[r.Intn(2)], Weight: 1}
+				rt.Rules = append(rt.Rules, vsRule{Matches: []vsMatch{m}, Backends: []vsBackend{b}})
+			}
+		}
+		var idx []int
+		for i := range c.Routes {
+			if !c.Routes[i].GRPC {
+				idx = append(idx, i)
+			}
+		}
+		if len(idx) >= 2 && r.Chance(2, 3) {
+			a, b := &c.Routes[idx[0]], &c.Routes[idx[1]]
+			b.NS, b.Hosts = a.NS, append([]string(nil), a.Hosts...)
+			b.Parents = append([]vsParentRef(nil), a.Parents...)
+			fat(a, 7+r.Intn(2))
+			fat(b, 7+r.Intn(2))
+		} else if len(idx) >= 1 {
+			fat(&c.Routes[idx[r.Intn(len(idx))]], 13+r.Intn(4))
+		}
+	}
 	if r.Chance(2, 3) {
 		vsCohere(r, c)
 	}
